@@ -22,7 +22,8 @@ Oracle (only what the statement says; weaker reading where it is loose):
     alignment; elements whose serialisation failed at collection are allowed to be absent);
   * dr.run on the hydrated broker does not call an implementation whose registry point was loaded;
   * a failed component's metadata document exists and contains the traceback of every exception the
-    broker recorded for it;
+    broker recorded for it; no collected element vanishes silently (persisted results + errors of the
+    document >= collected elements);
   * hydrate never raises, and every entry that was not corrupted loads exactly as in the round trip.
 Not demanded: rc; anything about lines containing line-break characters or lone surrogates (not in
 the alphabet); what happens to the corrupted entries themselves; where exactly the serializer puts
@@ -237,6 +238,8 @@ def units(tier, seed):
     us.append({"part": "A", "sub": "args"})
     us.append({"part": "A", "sub": "many"})
     us.append({"part": "A", "sub": "collide"})
+    us.append({"part": "A", "sub": "names"})
+    us.append({"part": "A", "sub": "ascii-locale"})
     for k in range(len(VARIANTS)):
         us.append({"part": "A", "sub": "variant", "index": k})
     for sc in H_SCENARIOS:
@@ -350,6 +353,9 @@ def content_features(spec, orig):
     args = [el["arg"] for el in spec.get("elems", []) if "arg" in el]
     if args:
         feats["falsy_arg"] = any(not a for a in args)
+    texts = [el["n"] for el in spec.get("elems", [])] + [a for a in args if isinstance(a, str)] + [spec.get("msg", "")]
+    feats["name_not_valid_utf8"] = any(0xDC80 <= ord(c) <= 0xDCFF for t in texts for c in t)
+    feats["name_non_ascii"] = any(ord(c) > 127 for t in texts for c in t)
     return feats
 
 
@@ -370,6 +376,14 @@ def check_entry(spec, orig, doc, present, value, errors_expected):
     info["persisted"] = len(persisted)
     locs = [r["object"].get("relative_path") for r in persisted if isinstance(r, dict) and isinstance(r.get("object"), dict)]
     info["collide"] = len(set(locs)) < len(locs)      # two elements of ONE spec were persisted to one location
+    # nothing collected may vanish silently: every collected element is either persisted or stands behind an error of
+    # the metadata document ("a component that failed is persisted with its errors"). Counted, not matched - the weaker form.
+    have_errors = doc.get("errors") if isinstance(doc, dict) else None
+    n_errors = len(have_errors) if isinstance(have_errors, list) else 0
+    if len(persisted) + n_errors < len(orig["elems"]):
+        v.append(("persist:collected-result-neither-persisted-nor-reported",
+                  {"collected_elements": len(orig["elems"])},
+                  {"document": "absent" if doc is None else "present", "persisted_results": len(persisted), "errors": n_errors}))
     if not persisted:
         if present:
             v.append(("roundtrip:loaded-without-persisted-result", "absent", "present"))
@@ -514,6 +528,13 @@ def check_case(case):
         return check_b([case])[0][0]
     if case.get("part") == "H":
         return check_h(case)[0]
+    return check_a(case)[0]
+
+
+def check_a(case):
+    """Part A spec alone in its own archive -> (violations with features, nontrivial, outcome fingerprint)."""
+    if case.get("locale"):
+        return ascii_child([case])[0]
     v, info = run_specs([case], exec_perm=_exec_of(case))[0]
     f = content_features(case, None)
     f["elements_collide_on_location"] = bool(info["collide"])
@@ -521,7 +542,92 @@ def check_case(case):
         # why two elements of this spec share a location (measured above from the metadata document)
         f["collision"] = "save-as-directory" if case.get("save_as") == "dir" else (
             "command-mangling" if case["kind"] in ("m_cmd", "m_cmd2", "ccmd") else "other")
-    return [(c, x, o, f) for c, x, o in v]
+    nontrivial = (info["persisted"] >= 1 and info["loaded"] >= 1) or (case["kind"] == "fail" and info["errors"] >= 1)
+    return [(c, x, o, f) for c, x, o in v], bool(nontrivial), "p%d:l%d:e%d" % (min(info["persisted"], 4), min(info["loaded"], 4),
+                                                                                min(info["errors"], 2))
+
+
+# ---- names that need encoding, and an ASCII default encoding ---------------------------------------
+
+NAME_POOL = ["plain", "café.conf", "caf\udce9.conf", "日本"]
+# "caf\udce9.conf" is how Python hands out the Latin-1 file name b"caf\xe9.conf": not valid UTF-8, a lone surrogate
+# after surrogateescape. It appears as a FILE NAME, a command ARGUMENT and in an exception text - never inside a line.
+ASCII_LOCALE = {"LC_ALL": "C", "LANG": "C", "PYTHONUTF8": "0", "PYTHONCOERCECLOCALE": "0", "PYTHONIOENCODING": "utf-8"}
+
+
+def name_specs():
+    out = []
+    def elems(idx):
+        return [{"n": NAME_POOL[i], "lines": ["content %d" % i, "ü"]} for i in idx]
+    arrs = [p for n in range(1, 4) for p in itertools.permutations(range(len(NAME_POOL)), n)]
+    for kind, mode in (("m_text", "none"), ("m_text", "dir"), ("m_raw", "none"), ("m_ds", "none"), ("m_ds", "dir"),
+                       ("m_cmd", "none"), ("ccmd", "none"), ("cfile", "none"), ("m_glob", "none"), ("m_glob", "dir")):
+        for a in arrs:
+            if kind == "m_glob" and [NAME_POOL[i] for i in a] != sorted(NAME_POOL[i] for i in a):
+                continue
+            if kind == "m_raw" and len(a) == 3:
+                continue                     # one cp each: pairs suffice
+            out.append({"part": "A", "kind": kind, "save_as": mode, "elems": elems(a)})
+    for i in range(len(NAME_POOL)):
+        for kind, modes in (("text", ("none", "rename", "dir")), ("raw", ("none", "dir")), ("ds_list", ("none", "rename", "dir")),
+                            ("cmd_real", ("none",))):
+            for mode in modes:
+                out.append({"part": "A", "kind": kind, "save_as": mode, "elems": elems([i])})
+        out.append({"part": "A", "kind": "cmd_args", "save_as": "none", "placeholders": 1,
+                    "elems": [{"n": "f", "arg": NAME_POOL[i], "lines": ["content %d" % i]}]})
+        for exc in FAILS:
+            out.append({"part": "A", "kind": "fail", "exc": exc, "msg": " while reading " + NAME_POOL[i], "elems": []})
+    return out
+
+
+def ascii_specs():
+    """A small group executed in a child interpreter whose DEFAULT text encoding is ASCII (LC_ALL=C, UTF-8 mode and
+    locale coercion off). File names stay ASCII there (the file system encoding is ASCII too); arguments, exception
+    texts and contents are not."""
+    out = []
+    for arg in ("café", "日本"):
+        out.append({"kind": "m_cmd", "save_as": "none", "elems": [{"n": "e0", "arg": 0, "lines": ["zero"]},
+                                                                  {"n": "e1", "arg": arg, "lines": ["ü", ""]}]})
+        out.append({"kind": "ccmd", "save_as": "none", "elems": [{"n": "e1", "arg": arg, "lines": ["x"]}]})
+        out.append({"kind": "cmd_args", "save_as": "rename", "placeholders": 1, "elems": [{"n": "f", "arg": arg, "lines": ["x"]}]})
+        for exc in FAILS:
+            out.append({"kind": "fail", "exc": exc, "msg": " while reading " + arg, "elems": []})
+    for kind in ("text", "cmd", "ds_list", "ds_str"):
+        out.append({"kind": kind, "save_as": "dir", "elems": [{"n": "f", "lines": ["ü", "日本", "\ufeffbom"]}]})
+    out.append({"kind": "m_ds", "save_as": "none", "elems": [{"n": "b", "lines": ["ü"]}, {"n": "a", "lines": []}]})
+    return [dict(c, part="A", locale="C-ascii") for c in out]
+
+
+_CHILD = """
+import sys, json, locale, logging
+sys.path[:0] = [%r, %r]
+logging.disable(logging.CRITICAL)
+enc = locale.getpreferredencoding(False).lower().replace("_", "-")
+if enc not in ("ascii", "ansi-x3.4-1968", "us-ascii", "646"):
+    raise SystemExit("C11 harness: the child's default text encoding is %%s, not ASCII" %% enc)
+from props import c11
+print(json.dumps([list(c11.check_a(c)) for c in json.load(sys.stdin)]))
+"""
+
+
+def ascii_child(cases):
+    """Runs part A cases (their "locale" key removed) in ONE child interpreter with an ASCII default encoding.
+    -> [(violations, nontrivial, outcome)] per case."""
+    import subprocess
+    import sys
+    here = os.path.dirname(os.path.dirname(os.path.abspath(__file__)))
+    env = dict((k, v) for k, v in os.environ.items() if not k.startswith("LC_"))
+    env.update(ASCII_LOCALE)
+    env["PYTHONHASHSEED"] = "0"
+    plain = [dict((k, v) for k, v in c.items() if k != "locale") for c in cases]
+    p = subprocess.run([sys.executable, "-c", _CHILD % (here, os.environ.get("VERIF_REPO", "/repo"))],
+                       input=json.dumps(plain).encode("ascii"), stdout=subprocess.PIPE, stderr=subprocess.PIPE, env=env, timeout=600)
+    if p.returncode != 0:
+        raise RuntimeError("C11 harness: ASCII-locale child failed: %s" % p.stderr.decode("utf-8", "replace")[-1500:])
+    out = []
+    for case, (v, nontrivial, outcome) in zip(cases, json.loads(p.stdout.decode("ascii"))):
+        out.append(([(c, x, o, dict(f, locale=case["locale"])) for c, x, o, f in v], nontrivial, outcome))
+    return out
 
 
 def replay(case):
@@ -605,6 +711,16 @@ def run_unit(unit, tier):
         elif unit["sub"] == "collide":
             specs = collide_specs()
             run_batches(res, specs)
+        elif unit["sub"] == "names":
+            specs = name_specs()
+            run_batches(res, specs)
+        elif unit["sub"] == "ascii-locale":
+            specs = ascii_specs()
+            for spec, (v, nontrivial, outcome) in zip(specs, ascii_child(specs)):
+                res.case(nontrivial=nontrivial, outcome="A:C-ascii:%s:%s" % (spec["kind"], outcome))
+                res.stat("A_specs_in_ascii_locale_child")
+                for c, x, o, f in v:
+                    res.violation(c, spec, x, o, f)
         elif unit["sub"] == "variant":
             extra = VARIANTS[unit["index"]]
             specs = [dict(spec_single(extra["kind"], extra["save_as"], c), **dict((k, v) for k, v in extra.items()
